@@ -9,31 +9,59 @@ META = {
     "title": "Optional refactoring rules preserve program behaviour",
     "level": "proof",
     "design_ref": "DESIGN.md section 6 / C16",
-    "technique": "Coq lemmas on local rewrites against the reference Lua semantics + whole-program "
-                 "translation validation in the Coq reference interpreter",
-    "level_text": "Machine-checked local-equivalence lemmas (Coq) for the rewrites these rules perform, stated against "
-                  "the fuel-indexed reference semantics; on every run, generated programs are transformed by the real rules "
-                  "(on the tree and end to end through each generator) and original and output are executed in the Coq "
-                  "reference interpreter under both dialects and several oracle streams, any difference being the replay.",
+    "technique": "Coq theorems on the local rewrites against the reference Lua semantics (incl. a simulation theorem of "
+                 "the whole interpreter: closure-representation independence) + Gallina models of the rules tied to the "
+                 "Rust code + whole-program translation validation in the Coq reference interpreter",
+    "level_text": "Machine-checked LOCAL theorems (Coq, 18 statements in Properties/C16.v, all axiom-free) about the Gallina "
+                  "models (Model/Refactor.v) of the five rules' rewrites, against the fuel-indexed reference semantics, for "
+                  "every dialect, fuel, environment, varargs and store: x:m(args) vs x.m(x, args) (receiver an identifier "
+                  "whose read runs no code, or a literal: same values, same store); math.sqrt(e) vs e ^ 0.5 (same values, same "
+                  "store except for -0 and -inf: carve-out + refutation witness, recorded finding); function a.b:m(ps) vs "
+                  "a.b.m = function(self, ps) and local function f vs local f = function (where the rule fires, followed by "
+                  "ANY statements, same fuel, every outcome) up to the record kept for the function value, which the "
+                  "interpreter provably cannot observe (sim_*: a simulation theorem over all 24 functions of the "
+                  "interpreter); local vars1 = vals1 local vars2 = vals2 vs the merged declaration under the rule's guards "
+                  "for second initialisers that are literals / enclosing locals (same environment, same store; partial), "
+                  "with refutation witnesses showing each guard is needed and why exact store equality fails beyond that "
+                  "class. On every run the models (incl. the traversals) are compared with the real rules on ~2600 templates "
+                  "hitting every arm (block_eqb (model IN) OUT inside Coq), and generated programs and observable templates "
+                  "are pushed through the real rules and input and output are executed in the Coq interpreter.",
     "level_note": "Trusted: Coq kernel + vm_compute; Lua/Sem.v (specification); harness dl-rules + astdump. The lifting of "
-                  "local lemmas to whole programs is not proved (partial): whole-program equivalence is validated per run, "
-                  "not for all programs.",
-    "trusted_base": ["Coq 8.16.1 kernel, vm_compute", "Lua/Sem.v reference semantics + Lib/F64.v (specification)",
+                  "the local theorems to whole programs is NOT proved (partial): whole-program equivalence is validated per "
+                  "run, not for all programs. group_local_assignment with arbitrary second initialisers and function paths "
+                  "with __index metamethods are equivalent only up to a renaming of store addresses (not formalised).",
+    "trusted_base": ["Coq 8.16.1 kernel, vm_compute", "Lua/Sem.v reference semantics + Lib/F64.v (specification; fpow models "
+                     "C's pow on the special cases, sqrt assumed correctly rounded)",
                      "harness/crates/rules (program generator) + astdump (AST printer)", "darklua's parser (to read programs)"],
     "allowed_axioms": [],
-    "rule": "seeded typed generator of observable programs (closures, upvalues, shadowing, varargs, multiple returns, "
-            "metatables with observable metamethods, loops with break, method calls, foldable and dead code) x group_local_assignment, convert_local_function_to_assign, convert_function_to_assignment, remove_method_call, convert_square_root_call alone/together, optionally followed by default rules; a case is "
-            "non-trivial when the reference run gives a verdict (error-free, dialect-independent) and the rules changed the tree",
-    "assumptions": ["Lua/Sem.v is a faithful reference semantics on the modelled fragment"],
+    "rule": "(1) seeded typed generator of observable programs x the five rules alone/together, optionally followed by "
+            "default rules; non-trivial when the reference run gives a verdict and the rules changed the tree. (2) templates: "
+            "group_local: 18 first x 35 second declarations (0/1/2 values vs variables, multi-value calls, initialisers "
+            "mentioning/capturing/shadowing the first variables, also inside types) + random chains in every block kind; "
+            "local functions recursive / shadowed / name as parameter / name only in types; function statements on "
+            "0..3 fields with and without method, typed, attributed, nested; method calls on 34 receiver forms x 13 "
+            "argument forms in every syntactic slot; math.sqrt look-alikes x every binding construct shadowing math at "
+            "every scope; non-trivial when model = code and the rule changed the tree. (3) observable templates incl. "
+            "sqrt(-0) / sqrt(-inf): run of the input vs run of the output",
+    "assumptions": ["Lua/Sem.v is a faithful reference semantics on the modelled fragment",
+                    "the local theorems are not lifted to whole programs (validated per run instead)",
+                    "method_call_sound: reading the receiver runs no code (local, or globals table without metatable) and "
+                    "the method lookup does not rebind it; sqrt_sound: global math.sqrt is the library function, argument "
+                    "not -0 / -inf; function_to_assign_sound: fields of the path present in their tables (no __index runs); "
+                    "group_local_sound_partial: second initialisers literals / enclosing locals",
+                    "models leave out: `const function` (not in the tree)"],
 }
 
 def run(ctx):
     C.build_harness("dl-rules")
-    proofs_ok = C.proof_gate(ctx, ["Lua/RunCheck.vo", "Lua/KnownClasses.vo"])
+    proofs_ok = C.proof_gate(ctx, ["Lua/RunCheck.vo", "Lua/KnownClasses.vo", "Lua/Fingerprint.vo", "Model/Refactor.vo",
+                                   "Model/Removal.vo", "Model/RemovalKnown.vo", "Model/DefaultRules.vo"])
     n = 400 if ctx.tier == "quick" else 6000
     rulecheck.run_profile(ctx, "c16", n, classify=None)
     # the tie of the local theorems' models (Model/Refactor.v, Model/Removal.v, Model/Visit.v) to the Rust rules
     refactor_gen.run_stream(ctx, ctx.prop)
+    # property-level oracle on templates (incl. the recorded finding class of convert_square_root_call)
+    refactor_gen.run_behaviour(ctx, ctx.prop)
     if not proofs_ok and not ctx.violations:
         failed = [n for n, ok, _ in ctx.obligations if not ok]
         ctx.violation("proof obligation no longer checks: " + "; ".join(failed), {"obligations": failed},
